@@ -29,8 +29,18 @@ def build_text(rng, g):
     nmodes = rng.randint(1, 6)
     pool = rng.sample(range(0, 12), nmodes)
     n = rng.choice([1, 2, 3, 5, 8, 12, 20, 35, 60]) if rng.random() < 0.5 else rng.randint(1, 25)
+    if rng.random() < 0.04:
+        # long programs, many wires, large mode numbers
+        nmodes = rng.choice([8, 12, 20])
+        pool = rng.sample(list(range(0, 40)) + [100, 255, 256, 1000, 4096, 65535], nmodes)
+        n = rng.choice([100, 150, 250])
+        tags_big = True
+    else:
+        tags_big = False
     lines = ["name " + G.ident(), "version 1.0", ""]
     tags = set()
+    if tags_big:
+        tags.add("big")
     for _ in range(n):
         k = rng.choice([1, 1, 1, 2, 2, 3, 4])
         ms = rng.sample(pool, min(k, len(pool)))
